@@ -1,7 +1,7 @@
 (* C07: the case type of the harness-written case files (model vs. implementation on the same histories).
    Definitions only. *)
 From ZV.Common Require Import Base Run.
-From ZV.C07 Require Import Model ModelFive ModelTL.
+From ZV.C07 Require Import Model ModelFive ModelTL ModelTiered.
 Open Scope N_scope.
 
 Inductive xcase :=
@@ -11,7 +11,10 @@ Inductive xcase :=
 | X5 (c : fcfg) (impl_new rem : bool) (ops : list op5) (expect : list (option Z))
 (* ThreadLocalMemoryPool: TLS_SIZE_CLASSES as read from the source, configuration, history, and per allocation the
    arena index (in order of first appearance) and the offset inside the arena *)
-| XTl (impl_classes : list N) (c : tlcfg) (ops : list tlop) (expect : list (option Z)).
+| XTl (impl_classes : list N) (c : tlcfg) (ops : list tlop) (expect : list (option Z))
+(* TieredMemoryAllocator: configuration, history, and per allocation: tier, serving pool, pool hit, creating pool and
+   serial of the chunk; per deallocation: receiving pool, kept / released *)
+| XTi (c : tcfg) (ops : list top) (expect : list (option Z)).
 
 Definition xok (x : xcase) : bool :=
   match x with
@@ -21,4 +24,5 @@ Definition xok (x : xcase) : bool :=
       then (if impl_new then eqb_loz (observe5 Fixed c rem ops) e else 1073741824 <? f_cap c)   (* a huge arena may fail to allocate *)
       else negb impl_new
   | XTl ic c ops e => eqb_ln' ic TLS_SIZE_CLASSES && eqb_loz (tl_observe c ops) e
+  | XTi c ops e => eqb_loz (t_observe c ops) e
   end.
